@@ -514,7 +514,8 @@ public:
 		, mOutput(nullptr)
 	{
 		static_assert(TMode == SerializeMode::Load, "BitSerializer. This data type can be used only in 'Load' mode.");
-		const auto result = mRootXml.load_buffer(inputStr.data(), inputStr.size(), pugi::parse_default, pugi::encoding_utf8);
+		// Keep text which consists only of whitespace (otherwise such string values are lost)
+		const auto result = mRootXml.load_buffer(inputStr.data(), inputStr.size(), pugi::parse_default | pugi::parse_ws_pcdata_single, pugi::encoding_utf8);
 		if (!result) {
 			throw ParsingException(result.description(), 0, result.offset);
 		}
@@ -532,7 +533,8 @@ public:
 		, mOutput(nullptr)
 	{
 		static_assert(TMode == SerializeMode::Load, "BitSerializer. This data type can be used only in 'Load' mode.");
-		const auto result = mRootXml.load(inputStream);
+		// Keep text which consists only of whitespace (otherwise such string values are lost)
+		const auto result = mRootXml.load(inputStream, pugi::parse_default | pugi::parse_ws_pcdata_single);
 		if (!result) {
 			throw ParsingException(result.description(), 0, result.offset);
 		}
